@@ -598,7 +598,7 @@ func run(c *drv.Ctx) error {
 	idx := 0
 
 	for _, f := range flavours {
-		if os.Getenv("C20_PHASE") == "huge" {
+		if ph := os.Getenv("C20_PHASE"); ph == "huge" || ph == "scenarios" {
 			break
 		}
 		nruns := c.N(2, 16)
@@ -627,8 +627,13 @@ func run(c *drv.Ctx) error {
 		}
 	}
 	wg.Wait()
+	if ph := os.Getenv("C20_PHASE"); ph == "" || ph == "scenarios" {
+		if err := scenarioRun(c, bins[""]); err != nil {
+			errs = append(errs, "scenario probes: "+err.Error())
+		}
+	}
 	// the absurd-size probes burn CPU for their whole watchdog: run them when nothing else is measured
-	if os.Getenv("C20_PHASE") != "hostile" {
+	if ph := os.Getenv("C20_PHASE"); ph == "" || ph == "huge" {
 		if err := hugeRun(c, bins[""], c.Seed); err != nil {
 			errs = append(errs, "huge probes: "+err.Error())
 		}
